@@ -96,6 +96,9 @@ def Run.emit (r : Run) (name : String) (pos : Nat) : Run :=
 def Run.emitSeen (r : Run) (name : String) (pos : Nat) (o : Outcome) : Run :=
   { r with log := r.log ++ [⟨name, pos, r.attempts, r.execs, some o⟩] }
 
+/-- an event of a listener that is handed `CopyWithResult(result)` of the outcome just recorded as the execution's last one -/
+def Run.emitLast (r : Run) (name : String) (pos : Nat) : Run := r.emitSeen name pos r.last
+
 def getFailed (r : Run) (pos : Nat) : Nat := ((r.failed.find? (·.1 == pos)).map (·.2)).getD 0
 def setFailed (r : Run) (pos n : Nat) : Run := { r with failed := (pos, n) :: r.failed.filter (·.1 != pos) }
 
@@ -191,12 +194,15 @@ def drainBreaker (r : Run) (id pos : Nat) : Run :=
 def durExceeded (pos : Nat) (r : Run) : Bool := r.mdPos.contains pos && decide (r.slept > 0)
 
 @[simp] theorem durExceeded_emit (pos : Nat) (r : Run) (n : String) (p : Nat) : durExceeded pos (r.emit n p) = durExceeded pos r := rfl
+@[simp] theorem durExceeded_emitSeen (pos : Nat) (r : Run) (n : String) (p : Nat) (o : Outcome) : durExceeded pos (r.emitSeen n p o) = durExceeded pos r := rfl
+@[simp] theorem durExceeded_emitLast (pos : Nat) (r : Run) (n : String) (p : Nat) : durExceeded pos (r.emitLast n p) = durExceeded pos r := rfl
 @[simp] theorem durExceeded_setFailed (pos : Nat) (r : Run) (p n : Nat) : durExceeded pos (setFailed r p n) = durExceeded pos r := rfl
 
 /-- `retrypolicy.executor.OnFailure` decision: (result, run) after a failure was classified -/
 def retryOnFailure (pos : Nat) (m : Int) (retLast : Bool) (abort : List Cond) (res1 : PR) (r : Run) : PR × Run :=
   let dur := durExceeded pos r
-  let r := r.emit "rp.onFailure" pos
+  -- every listener of the retry policy is handed `CopyWithResult(result)`: it sees the attempt's outcome as the last one
+  let r := r.emitSeen "rp.onFailure" pos res1.outcome
   let failed := getFailed r pos + 1
   let r := setFailed r pos failed
   let exc : Bool := decide (m ≠ -1 ∧ (failed : Int) > m) || dur
@@ -204,8 +210,8 @@ def retryOnFailure (pos : Nat) (m : Int) (retLast : Bool) (abort : List Cond) (r
   let abortable := isAbortable abort res1.outcome
   let shouldRetry := !abortable && !exc && decide (m = -1 ∨ m > 0)
   let done := abortable || !shouldRetry
-  let r := if abortable then r.emit "rp.onAbort" pos else r
-  let r := if exc && !abortable then r.emit "rp.onRetriesExceeded" pos else r
+  let r := if abortable then r.emitSeen "rp.onAbort" pos res1.outcome else r
+  let r := if exc && !abortable then r.emitSeen "rp.onRetriesExceeded" pos res1.outcome else r
   if exc && !retLast then
     (failureResult (match res1.err with | some e => .exceededE res1.val e | none => .exceededV res1.val), r)
   else (res1.withDone done false, r)
@@ -224,15 +230,15 @@ def retryLoop (pos : Nat) (m : Int) (retLast : Bool) (handle abort : List Cond) 
         else
           -- RecordResult, delay, InitializeRetry, listeners
           let r := { r with last := res2.outcome }
-          let r := (r.emit "rp.onRetryScheduled" pos).trigger "rp.onRetryScheduled"
+          let r := (r.emitLast "rp.onRetryScheduled" pos).trigger "rp.onRetryScheduled"
           -- the delay wait is left at once when the execution is cancelled; InitializeRetry then reports the cancellation
           if r.isCanc then some (r.cancelRes, r) else
           let r := { r with attempts := r.attempts + 1, retries := r.retries + 1 }
-          let r := r.emit "rp.onRetry" pos
+          let r := r.emitLast "rp.onRetry" pos
           retryLoop pos m retLast handle abort inner fuel r
       else
         let res1 := res.withDone true true
-        some (res1, r.emit "rp.onSuccess" pos)
+        some (res1, r.emitSeen "rp.onSuccess" pos res.outcome)
 
 /-- one rate-limiter acquisition with max wait 0 at the world's clock: (admitted, new state) -/
 def limAcquire (c : LimCfg) (s : LimSt) (now : Int) : Bool × LimSt :=
